@@ -43,6 +43,10 @@ var ObsSets = [][]float64{{}, {0.5}, {0.5, 1.5, 100}, {-3, 2, math.Inf(1)}, {mat
 
 var Base = time.Unix(1600000000, 0)
 
+// BucketRanges has fractional and large boundaries so that formats which render a boundary into a
+// record name are exercised with values whose short renderings collide (0.5/1.5/2.5, 1e6).
+var BucketRanges = []datum.Range{{0, 0.5}, {0.5, 1.5}, {1.5, 2.5}, {2.5, 1e6}, {1e6, math.Inf(1)}}
+
 func (s MetricSpec) String() string {
 	return fmt.Sprintf("%s/%s name=%q prog=%q keys=%q labels=%q rot=%d", s.Shape.Kind, s.Shape.Type, s.Name, s.Prog, s.Keys, s.Labels, s.ValRot)
 }
@@ -54,7 +58,7 @@ func (s MetricSpec) Build() *metrics.Metric {
 	m := metrics.NewMetric(s.Name, s.Prog, s.Shape.Kind, s.Shape.Type, s.Keys...)
 	m.Source = s.Prog + ":1:1"
 	if s.Shape.Type == metrics.Buckets {
-		m.Buckets = []datum.Range{{0, 1}, {1, 2}, {2, math.Inf(1)}}
+		m.Buckets = BucketRanges
 	}
 	for i, l := range s.Labels {
 		d, err := m.GetDatum(l...)
